@@ -5,6 +5,7 @@ import (
 	"go/ast"
 	"go/token"
 	"go/types"
+	"sort"
 	"strings"
 )
 
@@ -249,7 +250,7 @@ func ruleTextNames(c *Ctx) {
 		got := env.canonStmts(fd.Body.List)
 		want := "return (P0==V?)"
 		_ = want
-		okk := strings.HasPrefix(got, "return (P0==") && strings.Contains(p.exprStr(fd.Body.List[0].(*ast.ReturnStmt).Results[0]), "strconv."+t.target)
+		okk := strings.HasPrefix(got, "return (") && strings.HasSuffix(got, "==P0)") && strings.Contains(p.exprStr(fd.Body.List[0].(*ast.ReturnStmt).Results[0]), "strconv."+t.target)
 		c.check(okk, "errors.is:"+t.typ, fd, "matches strconv."+t.target, t.typ+".Is must compare the target with strconv."+t.target+": "+got, "C05")
 	}
 	for _, fn := range []string{"parse", "Decimal.Scan"} {
@@ -354,7 +355,7 @@ func ruleTextFlags(c *Ctx) {
 				"printSign": fl('+'),
 				"padSign":   fl(' '),
 				"padRight":  fl('-'),
-				"padZero":   "(" + fl('0') + "&&(!" + fl('-') + "))",
+				"padZero":   "((!" + fl('-') + ")&&" + fl('0') + ")",
 				"verb":      "conv(byte;P1)",
 			}
 			got := map[string]string{}
@@ -604,11 +605,11 @@ func ruleTextLayout(c *Ctx) {
 		ch      byte
 		want    []string
 	}{
-		{"Decimal.format", "args.verb", 'e', []string{"(L+K(1))"}},
-		{"Decimal.format", "args.verb", 'f', []string{"((L.ndig+L.exp)+L)"}},
+		{"Decimal.format", "args.verb", 'e', []string{"(K(1)+L)"}},
+		{"Decimal.format", "args.verb", 'f', []string{"(L+L.exp+L.ndig)"}},
 		{"Decimal.format", "args.verb", 'g', []string{"L", "L"}},
-		{"Append", "fmt", 'e', []string{"(P+K(1))"}},
-		{"Append", "fmt", 'f', []string{"((L.ndig+L.exp)+P)"}},
+		{"Append", "fmt", 'e', []string{"(K(1)+P)"}},
+		{"Append", "fmt", 'f', []string{"(L.exp+L.ndig+P)"}},
 		{"Append", "fmt", 'g', []string{"P"}},
 	} {
 		fd := c.fn(t.fn)
@@ -632,10 +633,18 @@ func ruleTextLayout(c *Ctx) {
 					s = strings.ReplaceAll(s, fmt.Sprintf("L%d", i), "L")
 					s = strings.ReplaceAll(s, fmt.Sprintf("P%d", i), "P")
 				}
-				got = append(got, s)
+				// the operands of a sum are compared as a multiset
+				parts := strings.Split(strings.Trim(s, "()"), "+")
+				sort.Strings(parts)
+				got = append(got, strings.Join(parts, "+"))
 			}
 			return true
 		})
+		for i, w := range t.want {
+			parts := strings.Split(strings.Trim(w, "()"), "+")
+			sort.Strings(parts)
+			t.want[i] = strings.Join(parts, "+")
+		}
 		c.check(strings.Join(got, "|") == strings.Join(t.want, "|"), key, cl, "rounds at "+strings.Join(t.want, "|"), fmt.Sprintf("%s verb %c rounds at `%s`; the position the precision selects is `%s` (e: prec+1 digits, f: ndig+exp+prec digits, g: prec digits)", t.fn, t.ch, strings.Join(got, "|"), strings.Join(t.want, "|")), "C07")
 	}
 }
